@@ -38,6 +38,8 @@ func genC09(t *rapid.T) *Case {
 			p.Core = append(p.Core, wc{"hangul", 6})
 			p.LenMix = [3]int{10, 30, 60}
 		}
+		p.Top = append(p.Top, wc{"nbsp", 6})
+		p.Core = append(p.Core, wc{"nbsp", 5})
 		p.Top = append(p.Top, wc{"unlikely", 12})
 		p.Core = append(p.Core, wc{"unlikely", 10})
 		if rapid.Bool().Draw(t, "short") {
